@@ -399,3 +399,32 @@ pub fn gen_case(case: &Value) -> Value {
     }
     out
 }
+
+/// case: {"patterns":[p..], "natives":[ty..], "strings":[s..]} ->
+/// {"re": [[bool per string] per pattern] (null = invalid pattern), "native": [[bool per string] per type]}
+pub fn strfacts(case: &Value) -> Value {
+    let strs: Vec<String> = case["strings"].as_array().map(|a| a.iter().map(|x| x.as_str().unwrap_or("").to_string()).collect()).unwrap_or_default();
+    let empty = vec![];
+    let re: Vec<Value> = case["patterns"].as_array().unwrap_or(&empty).iter().map(|p| {
+        match regress::Regex::new(p.as_str().unwrap_or("")) {
+            Ok(r) => json!(strs.iter().map(|s| r.find(s).is_some()).collect::<Vec<_>>()),
+            Err(_) => Value::Null,
+        }
+    }).collect();
+    let native: Vec<Value> = case["natives"].as_array().unwrap_or(&empty).iter().map(|t| {
+        let t = t.as_str().unwrap_or("").replace(' ', "");
+        json!(strs.iter().map(|s| {
+            let q = serde_json::Value::String(s.clone());
+            match t.as_str() {
+                "::uuid::Uuid" => serde_json::from_value::<uuid::Uuid>(q).is_ok(),
+                "::chrono::naive::NaiveDate" => serde_json::from_value::<chrono::naive::NaiveDate>(q).is_ok(),
+                "::chrono::DateTime<::chrono::offset::Utc>" => serde_json::from_value::<chrono::DateTime<chrono::offset::Utc>>(q).is_ok(),
+                "::std::net::IpAddr" => serde_json::from_value::<std::net::IpAddr>(q).is_ok(),
+                "::std::net::Ipv4Addr" => serde_json::from_value::<std::net::Ipv4Addr>(q).is_ok(),
+                "::std::net::Ipv6Addr" => serde_json::from_value::<std::net::Ipv6Addr>(q).is_ok(),
+                _ => false,
+            }
+        }).collect::<Vec<_>>())
+    }).collect();
+    json!({"re": re, "native": native})
+}
